@@ -352,6 +352,7 @@ func (m *M) stepSafe() {
 					v = IfaceV{T: types.Typ[types.String], V: strC(e.msg)}
 				}
 				st.Panic = &PanicInfo{V: v, Msg: e.msg}
+				st.PanicHold = 0
 				// the faulting instruction is skipped
 			case goPark:
 				// a goroutine run inline blocks forever: discard its frames and continue the spawner
@@ -391,7 +392,8 @@ func (m *M) stepSafe() {
 			}
 		}
 	}()
-	if st.Panic != nil {
+	if st.Panic != nil && (st.PanicHold == 0 || len(st.Frames) < st.PanicHold) {
+		st.PanicHold = 0
 		m.unwindStep()
 		return
 	}
@@ -413,10 +415,17 @@ func (m *M) stepSafe() {
 func (m *M) unwindStep() {
 	st := m.st
 	f := st.top()
+	if m.ex.Cfg.Debug {
+		fmt.Fprintf(os.Stderr, "[s%d d%d] unwind %s defers=%d\n", st.ID, len(st.Frames), f.Fn.Name(), len(f.Defers))
+	}
 	if len(f.Defers) > 0 {
 		d := f.Defers[len(f.Defers)-1]
 		st.beginInstr()
+		nf := len(st.Frames)
 		m.invokeDeferred(f, d)
+		if len(st.Frames) > nf {
+			st.PanicHold = len(st.Frames) // run the deferred function's frames before unwinding further
+		}
 		st.logging = false
 		st.script = nil
 		return
@@ -939,6 +948,7 @@ func (m *M) execInstr(f *Frame, instr ssa.Instruction) {
 		v := m.get(f, in.X)
 		st.logging = false
 		st.Panic = &PanicInfo{V: v, Msg: "explicit panic: " + showValue(v)}
+		st.PanicHold = 0
 	case *ssa.Defer:
 		fn, args := m.prepareCall(f, &in.Call)
 		f.Defers = append(f.Defers, deferred{Fn: fn, Args: args})
